@@ -17,19 +17,19 @@ import (
 // C15 — start-up fails fast instead of running on an inconsistent or partial basis.
 
 type c15Params struct {
-	Fault    string         `json:"fault"` // none ahead load seqno seqno-omit failover open reopen reopen-during-open badmeta badmember
-	NumVB    int            `json:"num_vb"`
-	Nodes    int            `json:"nodes"`
-	VBs      []int          `json:"vbs,omitempty"` // affected vBuckets
-	Status   int            `json:"status,omitempty"`
-	Silent   bool           `json:"silent,omitempty"`
-	Mode     string         `json:"mode,omitempty"`
-	AutoReset string        `json:"auto_reset,omitempty"`
-	Stored   map[int]uint64 `json:"stored,omitempty"` // vb -> checkpoint seqno
-	Highs    map[int]uint64 `json:"highs,omitempty"`
-	Backend  string         `json:"backend,omitempty"`
-	ExpectStart bool        `json:"expect_start"` // control case: must start and cover every vBucket
-	WaitMs   int            `json:"wait_ms,omitempty"`
+	Fault       string         `json:"fault"` // none ahead load seqno seqno-omit failover open reopen reopen-during-open badmeta badmember
+	NumVB       int            `json:"num_vb"`
+	Nodes       int            `json:"nodes"`
+	VBs         []int          `json:"vbs,omitempty"` // affected vBuckets
+	Status      int            `json:"status,omitempty"`
+	Silent      bool           `json:"silent,omitempty"`
+	Mode        string         `json:"mode,omitempty"`
+	AutoReset   string         `json:"auto_reset,omitempty"`
+	Stored      map[int]uint64 `json:"stored,omitempty"` // vb -> checkpoint seqno
+	Highs       map[int]uint64 `json:"highs,omitempty"`
+	Backend     string         `json:"backend,omitempty"`
+	ExpectStart bool           `json:"expect_start"` // control case: must start and cover every vBucket
+	WaitMs      int            `json:"wait_ms,omitempty"`
 }
 
 func init() {
